@@ -6,6 +6,7 @@ import (
 	"os"
 
 	"verif/harness/codec"
+	"verif/harness/dates"
 )
 
 func main() {
@@ -17,6 +18,8 @@ func main() {
 	switch os.Args[1] {
 	case "codec":
 		err = codec.Main(os.Args[2:])
+	case "dates":
+		err = dates.Main(os.Args[2:])
 	default:
 		err = fmt.Errorf("unknown engine %q", os.Args[1])
 	}
